@@ -77,6 +77,10 @@ pub trait VecOps<const N: usize>: Fields<Tracked> {
     /// Addresses of the items produced by `iter_mut()` (kind 4) / `(&mut v).into_iter()` (kind 5); never dereferenced.
     fn iter_mut_addrs(&mut self, kind: usize) -> Vec<usize>;
     fn elem_count_(&self) -> usize;
+    /// hands the `iter()` object itself (not its slice) to `f`
+    fn with_iter_debug(&self, f: &mut dyn FnMut(&dyn Debug));
+    /// hands the `iter_mut()` object itself to `f`
+    fn with_iter_mut_debug(&mut self, f: &mut dyn FnMut(&dyn Debug));
 }
 
 fn eat(t: Tracked) -> u32 {
@@ -144,6 +148,8 @@ macro_rules! impl_vecops {
                 }
             }
             fn elem_count_(&self) -> usize { self.elem_count() }
+            fn with_iter_debug(&self, f: &mut dyn FnMut(&dyn Debug)) { let it = self.iter(); f(&it) }
+            fn with_iter_mut_debug(&mut self, f: &mut dyn FnMut(&dyn Debug)) { let it = self.iter_mut(); f(&it) }
         }
     };
 }
